@@ -228,9 +228,15 @@ theorem account_first_some (s : State) (n : Nat) (h : s.first ≠ none) :
   cases hf : s.first with
   | none => exact absurd hf h
   | some v => simp
+@[simp] theorem applyData_late (s : State) (sl : Slot) (d : Bytes) : (applyData s sl d).late = s.late := by
+  unfold applyData; split <;> (try split) <;> rfl
+@[simp] theorem account_late (s : State) (n : Nat) : (account s n).late = s.late := by
+  unfold account; split <;> rfl
+@[simp] theorem gapUpd_late (s : State) (b : Bool) (n m : Nat) : (gapUpd s b n m).late = s.late := by
+  unfold gapUpd; split <;> rfl
 
 /-- Remove the contiguity bookkeeping wrapper from every field it does not change. -/
-macro "strip_gap" : tactic => `(tactic| try simp only [gapUpd_consumed, gapUpd_pc, gapUpd_cur, gapUpd_reuse, gapUpd_leaderBuf, gapUpd_trailerBuf, gapUpd_pending, gapUpd_first, gapUpd_last, gapUpd_plen, gapUpd_nextXfer, gapUpd_nextBuf, gapUpd_chan, gapUpd_back, gapUpd_senderAlive, gapUpd_rxAlive, gapUpd_held, gapUpd_freed, gapUpd_ctl, gapUpd_iterStart, gapUpd_got, gapUpd_enq, gapUpd_sentLog, gapUpd_recvLog, gapUpd_faults])
+macro "strip_gap" : tactic => `(tactic| try simp only [gapUpd_consumed, gapUpd_pc, gapUpd_cur, gapUpd_reuse, gapUpd_leaderBuf, gapUpd_trailerBuf, gapUpd_pending, gapUpd_first, gapUpd_last, gapUpd_plen, gapUpd_nextXfer, gapUpd_nextBuf, gapUpd_chan, gapUpd_back, gapUpd_senderAlive, gapUpd_rxAlive, gapUpd_held, gapUpd_freed, gapUpd_ctl, gapUpd_iterStart, gapUpd_got, gapUpd_enq, gapUpd_sentLog, gapUpd_recvLog, gapUpd_faults, gapUpd_late])
 
 theorem gacc_first_none (s : State) (n : Nat) (b : Bool) (k m : Nat) (h : s.first = none) :
     (gapUpd (account s n) b k m).first = some n ∧ (gapUpd (account s n) b k m).last = some n ∧
@@ -471,6 +477,13 @@ theorem PoolOK_step {P : Params} {A : Assembler} {script : List Item} {s s' : St
         split at hs
         · next hc => injection hs with hs; subst hs; simp only [PoolOK]; rw [hpend] at hc; simp at hc; omega
         · cases hs
+      · cases hs
+    · cases hs
+  case reapLate =>
+    unfold stepReapLate at hs
+    split at hs
+    · split at hs
+      · injection hs with hs; subst hs; exact PoolOK_congr rfl rfl rfl rfl rfl rfl h
       · cases hs
     · cases hs
   case iterEnd =>
@@ -747,6 +760,13 @@ theorem Sizes_step {P : Params} {A : Assembler} {script : List Item} {s s' : Sta
         · cases hs
       · cases hs
     · cases hs
+  case reapLate =>
+    unfold stepReapLate at hs
+    split at hs
+    · split at hs
+      · injection hs with hs; subst hs; exact ⟨hl, ht, hc, hr, by simpa using hi, hsn⟩
+      · cases hs
+    · cases hs
   case iterEnd =>
     unfold stepIterEnd at hs
     split at hs
@@ -927,7 +947,8 @@ macro "step_split" : tactic => `(tactic| (
     | unfold stepObtainAlloc at hs | unfold stepSubmitOk at hs | unfold stepSubmitFail at hs
     | unfold stepPollOk at hs | unfold stepPollOverflow at hs | unfold stepPollFault at hs
     | unfold stepPollPending at hs | unfold stepParse at hs | unfold stepTrySend at hs
-    | unfold stepCancelNext at hs | unfold stepReapOne at hs | unfold stepIterEnd at hs
+    | unfold stepCancelNext at hs | unfold stepReapOne at hs | unfold stepReapLate at hs
+    | unfold stepIterEnd at hs
     | unfold stepExit at hs | unfold stepRxRecv at hs | unfold stepRxNone at hs
     | unfold stepRxSendBack at hs | unfold stepRxDrop at hs | unfold stepRxClose at hs
     | unfold stepStopCall at hs | unfold stepStopBlock at hs | unfold stepStopDisc at hs
